@@ -1,4 +1,5 @@
 """property -> deciding units / harnesses"""
 PROPS = {
-    'C02': {'units': ['opt'], 'kani': []},
+    'C02': {'units': ['opt'], 'kani': [], 'exclude': r'H_dup_out_unmentioned'},
+    'C03': {'units': ['opt'], 'kani': []},
 }
